@@ -4,6 +4,7 @@ import (
 	"bytes"
 	"encoding/hex"
 	"fmt"
+	"reflect"
 	"testing"
 
 	"pgregory.net/rapid"
@@ -63,7 +64,41 @@ func TestReverseCanonical(t *testing.T) {
 		conf.FocusTypeRules = rapid.IntRange(0, 5).Draw(rt, "focusTypeRules") == 0
 		c := serixgen.NewCase(rt, conf)
 		v, vl := serixgen.GenValue(rt, c.Root, serixgen.ValidMode, cfg())
-		ref := serixgen.RefEncode(c.Root, v, true)
+		reverseBody(rt, check, c.Root.String(), c.Root, c.Encode, c.Decode, v, vl)
+	})
+}
+
+// TestTopLevelReverse is TestReverseCanonical for top-level objects whose settings travel with the call (see
+// TestTopLevelDifferential): the decoder that gets array rules, bounds and the prefix width through
+// serix.WithTypeSettings has to enforce them exactly like the decoder of a struct field.
+func TestTopLevelReverse(t *testing.T) {
+	const check = "toplevel_reverse"
+	stats.Rule(check, "as reverse_canonical, for the top-level objects of toplevel_differential (settings passed by serix.WithTypeSettings for unnamed collections, strings and byte slices): canonical bytes accepted, accepted => re-encode equals the consumed bytes, planted rule violations rejected. Distinct by (kind, shape, input bytes); non-trivial = accepted mutated input, or a planted rule violation")
+	rapid.Check(t, func(rt *rapid.T) {
+		c := serixgen.NewCaseWithTop(rt, cfg())
+		v, vl := serixgen.GenValue(rt, c.Top, serixgen.ValidMode, cfg())
+		if (c.Top.Kind == serixgen.KPtr || c.Top.Kind == serixgen.KIface) && v.IsNil() {
+			stats.Case(check, false, "", nil, "nil_top_level_object_skipped")
+			return
+		}
+		stats.Label(check, "top:"+c.TopKind)
+		reverseBody(rt, check, c.TopKind+" "+c.Top.String(), c.Top, c.EncodeTop, c.DecodeTop, v, vl)
+	})
+}
+
+func reverseBody(rt *rapid.T, check, schema string, n *serixgen.Node, encode func(reflect.Value, bool) serixgen.Outcome,
+	decode func([]byte, bool) serixgen.Outcome, v reflect.Value, vl map[string]bool) {
+	fail := func(ex map[string]any, format string, a ...any) {
+		msg := fmt.Sprintf(format, a...)
+		p := map[string]any{"schema": schema, "problem": msg, "value": serixgen.Render(n, v)}
+		for k, x := range ex {
+			p[k] = x
+		}
+		stats.Violation(check, p)
+		rt.Fatalf("%s: %s\nschema: %s\nvalue: %v\nextra: %v", check, msg, schema, p["value"], ex)
+	}
+	{
+		ref := serixgen.RefEncode(n, v, true)
 		if ref.Reject != "" {
 			stats.Case(check, false, "", nil, "skipped:value_not_encodable("+fmt.Sprint(vl["unsatisfiable_rules"])+")")
 			return
@@ -82,8 +117,8 @@ func TestReverseCanonical(t *testing.T) {
 		ex := map[string]any{"input": hex.EncodeToString(input), "mutation": mut.Label, "valid_encoding": hex.EncodeToString(ref.B)}
 		nt := false
 
-		dec := c.Decode(input, true)
-		decNV := c.Decode(input, false)
+		dec := decode(input, true)
+		decNV := decode(input, false)
 		if dec.Panic != nil || decNV.Panic != nil {
 			// totality is C02's claim; it is reported there
 			stats.Case(check, false, "", nil, append(labels, "decoder_panicked(reported by C02)")...)
@@ -93,18 +128,18 @@ func TestReverseCanonical(t *testing.T) {
 			nt = true
 			labels = append(labels, "planted_violation:"+mut.MustReject)
 			if dec.Err == nil {
-				violation(rt, check, c, v, ex, "validating decoder accepted an input that violates a documented rule: %s", mut.Why)
+				fail(ex, "validating decoder accepted an input that violates a documented rule: %s", mut.Why)
 			}
 			if mut.MustReject == "always" && decNV.Err == nil {
-				violation(rt, check, c, v, ex, "decoder (no validation) accepted an input that violates a rule enforced in every mode: %s", mut.Why)
+				fail(ex, "decoder (no validation) accepted an input that violates a rule enforced in every mode: %s", mut.Why)
 			}
 		}
 		if mut.Label == "canonical" {
 			if dec.Err != nil {
-				violation(rt, check, c, v, ex, "validating decoder rejected the canonical encoding of an encodable value: %v", dec.Err)
+				fail(ex, "validating decoder rejected the canonical encoding of an encodable value: %v", dec.Err)
 			}
 			if dec.N != len(input) {
-				violation(rt, check, c, v, ex, "validating decoder consumed %d of %d canonical bytes", dec.N, len(input))
+				fail(ex, "validating decoder consumed %d of %d canonical bytes", dec.N, len(input))
 			}
 		}
 		if dec.Err == nil {
@@ -113,16 +148,16 @@ func TestReverseCanonical(t *testing.T) {
 				nt = true
 				labels = append(labels, "accepted_mutated")
 			}
-			n := dec.N
-			if n < 0 || n > len(input) {
+			cons := dec.N
+			if cons < 0 || cons > len(input) {
 				stats.Case(check, false, "", nil, append(labels, "bad_consumed_count(reported by C02)")...)
 				return
 			}
-			re := c.Encode(dec.Value, true)
-			ex["decoded"] = serixgen.Render(c.Root, dec.Value)
-			ex["consumed"] = n
+			re := encode(dec.Value, true)
+			ex["decoded"] = serixgen.Render(n, dec.Value)
+			ex["consumed"] = cons
 			if re.Panic != nil {
-				violation(rt, check, c, v, ex, "re-encoding an accepted value panicked: %v", re.Panic)
+				fail(ex, "re-encoding an accepted value panicked: %v", re.Panic)
 			}
 			// inputs carrying a time stamp beyond the int64-nanosecond range are outside the property's domain (documented
 			// saturation). Where the stamp sits in a plain field it is excused field by field below; where it sits inside
@@ -130,18 +165,18 @@ func TestReverseCanonical(t *testing.T) {
 			// so the whole input is excluded - only for mutation kinds that can plant such a stamp.
 			// Any mutation can plant such a stamp (a changed count or length makes the decoder read other bytes as a time
 			// field), so the exclusion applies to every non-canonical input whose decoded value holds a saturated stamp.
-			outOfDomain := mut.Label != "canonical" && serixgen.HasSaturatedTime(c.Root, dec.Value)
+			outOfDomain := mut.Label != "canonical" && serixgen.HasSaturatedTime(n, dec.Value)
 			if re.Err != nil && outOfDomain {
 				stats.NoteAdd(check, "excluded_saturating_time_cases", 1)
 				stats.Case(check, false, "", nil, append(labels, "excluded_saturating_time_reordered")...)
 				return
 			}
 			if re.Err != nil {
-				violation(rt, check, c, v, ex, "validating decoder accepted the input but re-encoding the decoded value with validation fails: %v", re.Err)
+				fail(ex, "validating decoder accepted the input but re-encoding the decoded value with validation fails: %v", re.Err)
 			}
-			if !bytes.Equal(re.Bytes, input[:n]) {
-				refDec := serixgen.RefEncode(c.Root, dec.Value, true)
-				patched, excused := excuseSaturatedTimes(input[:n], re.Bytes, refDec.F)
+			if !bytes.Equal(re.Bytes, input[:cons]) {
+				refDec := serixgen.RefEncode(n, dec.Value, true)
+				patched, excused := excuseSaturatedTimes(input[:cons], re.Bytes, refDec.F)
 				if excused > 0 {
 					labels = append(labels, "excluded_saturating_time")
 					stats.NoteAdd(check, "excluded_saturating_time_fields", int64(excused))
@@ -153,14 +188,14 @@ func TestReverseCanonical(t *testing.T) {
 					stats.NoteAdd(check, "excluded_saturating_time_cases", 1)
 				} else if !bytes.Equal(re.Bytes, patched) {
 					ex["reencoded"] = hex.EncodeToString(re.Bytes)
-					violation(rt, check, c, v, ex, "accepted input is not canonical: re-encoding yields different bytes")
+					fail(ex, "accepted input is not canonical: re-encoding yields different bytes")
 				}
 			}
 		} else {
 			labels = append(labels, "rejected")
 		}
-		stats.Case(check, nt, c.Root.String()+"|"+hex.EncodeToString(input), func() any {
-			return map[string]any{"schema": c.Root.String(), "input": hex.EncodeToString(input), "mutation": mut.Label, "accepted": dec.Err == nil}
+		stats.Case(check, nt, schema+"|"+hex.EncodeToString(input), func() any {
+			return map[string]any{"schema": schema, "input": hex.EncodeToString(input), "mutation": mut.Label, "accepted": dec.Err == nil}
 		}, labels...)
-	})
+	}
 }
